@@ -506,6 +506,64 @@ func ExtremeFamilies(r *rand.Rand, g func(*rand.Rand) string, n int, accept func
 	return out
 }
 
+// WildFamilies builds a pool of families around generated versions: the
+// version itself, each shorter spelling of its numbers (1.2.3 -> 1.2, 1), and
+// each of those with a wildcard (x, X, *) in place of one number or appended
+// as a further component, with and without the original's prerelease part.
+// Where a system's Parse accepts such patterns they are versions like any
+// other, and the order among a version, its shortened forms and its patterns
+// is decided by how absent and wildcard components are read.
+func WildFamilies(r *rand.Rand, g func(*rand.Rand) string, n int, accept func(string) bool) []string {
+	seen := map[string]bool{}
+	var out []string
+	add := func(t string) {
+		if seen[t] {
+			return
+		}
+		seen[t] = true
+		if accept == nil || accept(t) {
+			out = append(out, t)
+		}
+	}
+	for tries := 0; len(out) < n && tries < n*20; tries++ {
+		s := g(r)
+		end := len(s)
+		if i := strings.IndexAny(s, "-+"); i >= 0 {
+			end = i
+		}
+		head, tail := s[:end], s[end:]
+		pre := ""
+		if strings.HasPrefix(head, "v") || strings.HasPrefix(head, "V") {
+			pre, head = head[:1], head[1:]
+		}
+		nums := strings.Split(head, ".")
+		ok := len(nums) > 0
+		for _, x := range nums {
+			if x == "" || strings.Trim(x, "0123456789") != "" {
+				ok = false
+			}
+		}
+		if !ok {
+			continue
+		}
+		w := Pick(r, "x", "*", "X")
+		for k := 1; k <= len(nums); k++ {
+			short := strings.Join(nums[:k], ".")
+			for _, tl := range []string{"", tail} {
+				add(pre + short + tl)
+				add(pre + short + "." + w + tl)
+				add(pre + short + ".0" + tl)
+				for i := 0; i < k; i++ {
+					c := append([]string(nil), nums[:k]...)
+					c[i] = w
+					add(pre + strings.Join(c, ".") + tl)
+				}
+			}
+		}
+	}
+	return out
+}
+
 // Pool draws n distinct strings accepted by accept (nil = all).
 func Pool(r *rand.Rand, g func(*rand.Rand) string, n int, accept func(string) bool) []string {
 	seen := map[string]bool{}
